@@ -97,6 +97,8 @@ Proof.
             match goal with E : (_ =? _) = true |- _ => apply Nat.eqb_eq in E; subst end;
             match goal with E : main _ = _ |- _ => rewrite E in Im; specialize (Im _ eq_refl) end;
             apply real_ids_cons; exact Im).
+  all: try (intros rr Hrr; injection Hrr as <-;
+            repeat match goal with E : _ && _ = true |- _ => apply andb_true_iff in E as [E ?] end; assumption).
 Qed.
 
 Lemma InvErr_reachable c s : reachable_sup c s -> InvErr c s.
